@@ -1254,7 +1254,7 @@ def draws_round(chk, drv, docs, n_draws, mechanism="draws"):
                                       {**rep, "media_type": case.media_type, "body": body if on_wire(body) else repr(body),
                                        "schema": body_schema, **extra})
             # configured string restrictions
-            gov, gov_hdr, gov_bearer = [], [], []
+            gov, gov_hdr, gov_bearer = [], [], []      # gov_hdr: plain `{type: string}` header/cookie values only (F40's site)
             for loc in LOCATIONS:
                 for name, v in (parts[loc] or {}).items():
                     d = {dd["name"]: dd for l, dd in doc["params"] if l == loc}.get(name)
@@ -1267,7 +1267,11 @@ def draws_round(chk, drv, docs, n_draws, mechanism="draws"):
                     if d is not None and isinstance(v, str):
                         sch = param_schema(doc, d)
                         if sch.get("type", "string" if loc in ("header", "cookie") else None) == "string":
-                            (gov_hdr if loc in ("header", "cookie") else gov).append(v)
+                            # F40 is the `_header_value` format strategy, which make_positive_strategy injects for bare
+                            # `{type: string}` header/cookie parameters only; a constrained string (minLength, pattern, enum ...)
+                            # goes through from_schema(codec=...) like every other string and must honour the codec
+                            plain = loc in ("header", "cookie") and set(sch) <= {"type"}
+                            (gov_hdr if plain else gov).append(v)
             if body_schema is not None and case.body is not NOT_SET and "$ref" not in json.dumps(body_schema):
                 governed_strings(body_schema, case.body, gov)
             allstr = strings_in([parts, None if case.body is NOT_SET else case.body], [])
